@@ -114,6 +114,9 @@ func C06(c *core.Ctx) {
 		c06Large(c, work, i)
 		c06ThroughGC(c, work, i)
 	}
+	if c.Counter("gc.rewrites_with_live_attributed_entries") == 0 {
+		c.Inconclusive("through-gc: GC never rewrote a file holding live entries with attributes")
+	}
 	for i := 0; i < c.Pick(4, 24); i++ {
 		c06PinnedThreshold(c, work, i)
 	}
@@ -232,7 +235,8 @@ func c06ThroughGC(c *core.Ctx, work string, idx int) {
 		}
 	}
 	if rewrites == 0 {
-		c.Inconclusive("through-gc: GC did not rewrite a file")
+		// this layout gave GC nothing to do; the family as a whole is inconclusive only if no case did
+		c.Count("gc.cases_in_which_gc_rewrote_nothing", 1)
 		return
 	}
 	c.Eval(1)
